@@ -122,9 +122,8 @@ def _tail_only(fn):
     body = [s for s in fn.body if not (isinstance(s, ast.Expr) and isinstance(s.value, ast.Constant))]
     if not body or not isinstance(body[-1], ast.Return):
         return None
+    # any statements may precede the final return as long as none of them returns (loops, ifs and tries run to their end)
     for s in body[:-1]:
-        if not isinstance(s, (ast.Assign, ast.AnnAssign, ast.AugAssign, ast.Expr, ast.Pass)):
-            return None
         if any(isinstance(x, ast.Return) for x in ast.walk(s)):
             return None
     return body
@@ -179,6 +178,12 @@ class _Flattener:
         if isinstance(st, _SIMPLE):
             return self.simple(st, depth, stack)
         st = copy.copy(st)
+        # headers of compound statements (the test of an if / while, the iterable of a for): helpers that are a single 'return <expr>'
+        # are replaced by that expression
+        for f in ('test', 'iter'):
+            h = getattr(st, f, None)
+            if isinstance(h, ast.AST):
+                setattr(st, f, self._expr_helpers(h, depth, stack))
         for f in ('body', 'orelse', 'finalbody'):
             b = getattr(st, f, None)
             if isinstance(b, list) and b and isinstance(b[0], ast.stmt):
@@ -191,6 +196,39 @@ class _Flattener:
                 hs.append(h)
             st.handlers = hs
         return [st]
+
+    def _expr_helpers(self, e, depth, stack):
+        if depth <= 0:
+            return e
+        for _ in range(8):
+            done = True
+            for c in [c for c in ast.walk(e) if isinstance(c, ast.Call)]:
+                r = self.lookup(c)
+                if r is None:
+                    continue
+                callee, skip_self, name = r
+                if name in self.keep or name in stack:
+                    continue
+                body = [x for x in callee.body if not (isinstance(x, ast.Expr) and isinstance(x.value, ast.Constant))
+                        and not (isinstance(x, ast.AnnAssign) and x.value is None)]
+                if len(body) != 1 or not isinstance(body[0], ast.Return) or body[0].value is None:
+                    continue
+                b = _bind(c, callee, skip_self)
+                if b is None or not all(_pure_arg(a) for a in b.values()):
+                    continue
+                val = _Subst(dict(b)).visit(copy.deepcopy(body[0].value))
+                ast.copy_location(val, c)
+                ast.fix_missing_locations(val)
+                if e is c:
+                    e = val
+                else:
+                    e = _replace_node(e, c, val)
+                self.inlined.append(name)
+                done = False
+                break
+            if done:
+                break
+        return e
 
     def _candidates(self, st):
         """Call nodes of st that may be inlined (not under lambda / comprehension / boolean short-circuit / conditional expression)."""
